@@ -162,7 +162,7 @@ func runCheck(id, tier string, seed int, overlay map[string][]byte, quiet bool) 
 	isKnown := func(name string) *KnownFinding {
 		for i := range known {
 			k := &known[i]
-			if k.Property == id && k.Status == "open" && k.Obligation == name {
+			if k.Status == "open" && k.Obligation == name {
 				return k
 			}
 		}
@@ -178,6 +178,7 @@ func runCheck(id, tier string, seed int, overlay map[string][]byte, quiet bool) 
 		notes                                                     []string
 		kfLines                                                   []string
 		failedNames                                               []string
+		foreign                                                   []string
 		slow                                                      []sample
 	)
 	seenStr := map[string]bool{}
@@ -191,7 +192,7 @@ func runCheck(id, tier string, seed int, overlay map[string][]byte, quiet bool) 
 	}
 	report := func(o *Oblig, fr *FuncResult, reason string) {
 		if k := isKnown(o.Name); k != nil {
-			kfLines = append(kfLines, fmt.Sprintf("KNOWN-FINDING: property=%s %s: %s", id, o.Name, k.WhatFails))
+			kfLines = append(kfLines, fmt.Sprintf("KNOWN-FINDING: property=%s %s: %s", k.Property, o.Name, k.WhatFails))
 			return
 		}
 		violations++
@@ -252,9 +253,19 @@ func runCheck(id, tier string, seed int, overlay map[string][]byte, quiet bool) 
 			continue
 		}
 		for _, o := range fr.Obligs {
+			// Every obligation generated for a function verified for this property counts:
+			// later obligations of the same path are proved assuming the earlier ones, so a
+			// failed supporting obligation (whatever clause it is tagged with) invalidates them.
 			mine := hasProp(o.Props, id) || o.Kind == "cover" || o.Kind == "drift"
-			if !mine {
+			if !mine && o.Status == "discharged" {
 				continue
+			}
+			if !mine {
+				if k := isKnown(o.Name); k != nil {
+					// a listed finding of another property, in a function this check also verifies
+					foreign = append(foreign, fmt.Sprintf("KNOWN-FINDING: property=%s %s: %s", k.Property, o.Name, k.WhatFails))
+					continue
+				}
 			}
 			if o.Kind == "cover" {
 				nCover++
@@ -287,6 +298,9 @@ func runCheck(id, tier string, seed int, overlay map[string][]byte, quiet bool) 
 	for _, l := range kfLines {
 		printf("%s\n", l)
 	}
+	for _, l := range foreign {
+		printf("%s\n", l)
+	}
 	sort.Slice(slow, func(i, j int) bool { return slow[i].Millis > slow[j].Millis })
 	if len(slow) > 5 {
 		slow = slow[:5]
@@ -315,12 +329,13 @@ func runCheck(id, tier string, seed int, overlay map[string][]byte, quiet bool) 
 		level = "other"
 	}
 	cov := map[string]interface{}{
-		"obligations":              nObl,
-		"discharged":               nDis,
-		"undecided":                nUndec,
-		"verification_conditions":  nVC,
-		"covers_checked":           nCover,
-		"known_findings_open":      len(kfLines),
+		"obligations":             nObl,
+		"discharged":              nDis,
+		"undecided":               nUndec,
+		"verification_conditions": nVC,
+		"covers_checked":          nCover,
+		"known_findings_open":     len(kfLines),
+		"known_findings_of_other_properties_seen": len(foreign),
 		"by_backend":               byBackend,
 		"solver_wall_ms":           s.R.TotalMs,
 		"solver_queries":           s.R.Queries,
